@@ -67,6 +67,9 @@ def index_spaces(rep, M, rid):
                 t = type_of(e.args[0], env)
                 if t and t != "DATASET" and t[0] == "map" and any(k.arg == "return_index" for k in e.keywords):
                     return ("tuple", [("vals", t[2]), ("map", t[2], t[1])])
+                if t and t != "DATASET" and t[0] == "map":
+                    # without return_index np.unique gives the sorted labels themselves: one per atom of B, values in B
+                    return ("map", t[2], t[2])
         if isinstance(e, ast.Subscript):
             a, i = type_of(e.value, env), type_of(e.slice, env)
             if a and i and a != "DATASET" and i != "DATASET":
@@ -288,3 +291,227 @@ def primitive_conversion(rep, M, rid):
         rep.ok(rid, "centring = first character of the international short symbol")
     else:
         rep.violation(rid, "_get_primitive_system: centring", "centring letter is not the first character of the short symbol", M.where(fq))
+
+
+# ----------------------------------------------------------------------------- orbit source
+def orbit_source(rep, M, rid):
+    fq = SA + "._get_spglib_equivalent_atoms_original"
+    fn = M.func(fq)
+    attrs = {x.attr for x in ast.walk(fn) if isinstance(x, ast.Attribute)}
+    if "crystallographic_orbits" in attrs and "equivalent_atoms" not in attrs:
+        rep.ok(rid, "equivalence of original atoms = crystallographic_orbits of the dataset")
+    else:
+        rep.violation(rid, "_get_spglib_equivalent_atoms_original", "does not read dataset.crystallographic_orbits: spglib's `equivalent_atoms` "
+                      "is relative to the symmetry of the *input cell*, so for a supercell whose lattice breaks the point symmetry one "
+                      "crystallographic orbit is split into several sets", M.where(fq))
+
+
+# ----------------------------------------------------------------------------- memo coherence with set_system()
+def reset_covers_caches(rep, M, rid):
+    """every memoised result of SymmetryAnalyzer is dropped by reset(), and set_system() calls reset():
+    otherwise an analyzer reused through set_system() answers for the previous structure"""
+    cls = M.cls(SA)
+    meth = {f.name: f for f in cls.body if isinstance(f, ast.FunctionDef)}
+    if "reset" not in meth or "set_system" not in meth:
+        raise AnalysisError("SymmetryAnalyzer.reset / set_system missing")
+    lifecycle = {"__init__", "reset", "set_system"}
+    assigned = {}
+    tested = set()
+    for name, f in meth.items():
+        for n in ast.walk(f):
+            if isinstance(n, (ast.Assign, ast.AugAssign)):
+                tg = n.targets if isinstance(n, ast.Assign) else [n.target]
+                for t in tg:
+                    for el in (t.elts if isinstance(t, (ast.Tuple, ast.List)) else [t]):
+                        if isinstance(el, ast.Attribute) and isinstance(el.value, ast.Name) and el.value.id == "self":
+                            if name not in lifecycle and not (isinstance(n, ast.Assign) and isinstance(n.value, ast.Constant) and n.value.value is None):
+                                assigned.setdefault(el.attr, name)
+            if isinstance(n, ast.Compare) and isinstance(n.left, ast.Attribute) and isinstance(n.left.value, ast.Name) \
+                    and n.left.value.id == "self" and isinstance(n.ops[0], (ast.Is, ast.IsNot)) \
+                    and isinstance(n.comparators[0], ast.Constant) and n.comparators[0].value is None:
+                tested.add(n.left.attr)
+            if isinstance(n, ast.If) and isinstance(n.test, ast.Attribute) and isinstance(n.test.value, ast.Name) and n.test.value.id == "self":
+                tested.add(n.test.attr)
+    reset_none = {t.attr for n in ast.walk(meth["reset"]) if isinstance(n, ast.Assign) and isinstance(n.value, ast.Constant) and n.value.value is None
+                  for t in n.targets if isinstance(t, ast.Attribute)}
+    memos = sorted(a for a in assigned if a in tested)
+    rep.count("memo_attributes", len(memos))
+    for a in memos:
+        if a in reset_none:
+            rep.ok(rid, f"memo self.{a} (filled in {assigned[a]}) is cleared by reset()")
+        else:
+            rep.violation(rid, f"SymmetryAnalyzer memo self.{a}", f"filled in {assigned[a]} and reused when not None, but reset() does not clear it: "
+                          "after set_system(other) the analyzer answers for the previous structure", M.where(SA + "." + assigned[a]))
+    for name, f in meth.items():
+        for d in f.decorator_list:
+            t = ast.unparse(d)
+            if any(k in t for k in ("lru_cache", "functools.cache", "cached_property")) or t == "cache":
+                clears = any(isinstance(c, ast.Call) and isinstance(c.func, ast.Attribute) and c.func.attr == "cache_clear" and name in ast.unparse(c)
+                             for c in ast.walk(meth["reset"]))
+                if not clears:
+                    rep.violation(rid, f"SymmetryAnalyzer.{name} @{t}", "result memoised per analyzer object outside the attributes reset() clears: "
+                                  "after set_system(other) the analyzer answers for the previous structure", M.where(SA + "." + name))
+    calls_reset = any(isinstance(c, ast.Call) and isinstance(c.func, ast.Attribute) and c.func.attr == "reset" and isinstance(c.func.value, ast.Name)
+                      and c.func.value.id == "self" for c in ast.walk(meth["set_system"]))
+    first = meth["set_system"].body[0] if meth["set_system"].body else None
+    if calls_reset:
+        rep.ok(rid, "set_system() calls reset()")
+    else:
+        rep.violation(rid, "SymmetryAnalyzer.set_system", "does not call reset(): cached results of the previous structure survive", M.where(SA + ".set_system"))
+    if len(memos) < 8:
+        raise AnalysisError(f"only {len(memos)} memo attributes recognised in SymmetryAnalyzer (>= 8 confirmed by hand)")
+
+
+# ----------------------------------------------------------------------------- letter-space typing
+# A normalizer's "permutations" is a dict OLD -> NEW letter. Types:
+#   ("L", s)            sequence / array / scalar of letters of space s in {"OLD", "NEW"}
+#   ("D", a, b)         dict from letters of space a to values of kind b ("OLD"/"NEW" letter, or ("POS", s): position aligned with the
+#                       key/value order of the permutation dict whose entry at that position is of space s)
+#   ("P", s)            integer positions aligned with the permutation dict's order, pointing at entries of space s ... (see below)
+def letter_spaces(rep, M, rid):
+    fq = SA + ".get_wyckoff_letters_original"
+    fn = M.func(fq)
+    env = {}
+    errors = []
+
+    def ty(e, loc=None):
+        loc = loc or {}
+        if isinstance(e, ast.Name):
+            return loc.get(e.id, env.get(e.id))
+        if isinstance(e, ast.Call):
+            f = e.func
+            if isinstance(f, ast.Attribute) and isinstance(f.value, ast.Name) and f.value.id == "self" and f.attr == "_get_spglib_wyckoff_letters_original":
+                return ("L", "OLD")
+            if isinstance(f, ast.Attribute) and f.attr in ("keys", "values", "items", "get"):
+                d = ty(f.value, loc)
+                if d and d[0] == "D":
+                    if f.attr == "keys":
+                        return ("L", d[1], "aligned")
+                    if f.attr == "values":
+                        return ("L", d[2], "aligned") if isinstance(d[2], str) else ("POSSEQ", d[2])
+                    if f.attr == "items":
+                        return ("ITEMS", d[1], d[2])
+                    if f.attr == "get" and e.args:
+                        k = ty(e.args[0], loc)
+                        if k and k[0] == "L" and k[1] != d[1]:
+                            errors.append((e, f"a dict keyed by {d[1]} letters is looked up with {k[1]} letters"))
+                        return ("L", d[2]) if isinstance(d[2], str) else d[2]
+            if isinstance(f, ast.Name) and f.id in ("list", "tuple", "sorted") and e.args:
+                return ty(e.args[0], loc)
+            if isinstance(f, ast.Attribute) and f.attr in ("array", "asarray") and e.args:
+                return ty(e.args[0], loc)
+            if isinstance(f, ast.Name) and f.id == "enumerate" and e.args:
+                t = ty(e.args[0], loc)
+                if t and t[0] == "L":
+                    return ("ENUM", t)
+            if isinstance(f, ast.Name) and f.id == "zip" and len(e.args) == 2:
+                return ("ZIP", ty(e.args[0], loc), ty(e.args[1], loc))
+            if isinstance(f, ast.Name) and f.id == "dict" and len(e.args) == 1:
+                z = ty(e.args[0], loc)
+                if z and z[0] == "ZIP" and z[1] and z[2] and z[1][0] == "L" and z[2][0] == "L":
+                    if not (len(z[1]) > 2 and len(z[2]) > 2):
+                        return None
+                    return ("D", z[1][1], z[2][1])
+            return None
+        if isinstance(e, ast.Subscript):
+            base = ty(e.value, loc)
+            if isinstance(e.value, ast.Attribute) and e.value.attr == "_best_transform" and isinstance(e.slice, ast.Constant) and e.slice.value == "permutations":
+                return ("D", "OLD", "NEW")
+            if base and base[0] == "D":
+                k = ty(e.slice, loc)
+                if k and k[0] == "L" and k[1] != base[1]:
+                    errors.append((e, f"a dict keyed by {base[1]} letters is subscripted with {k[1]} letters"))
+                return ("L", base[2]) if isinstance(base[2], str) else base[2]
+            if base and base[0] == "L":
+                k = ty(e.slice, loc)
+                if k and k[0] == "POS":
+                    if len(base) < 3:
+                        errors.append((e, "positions are used to index a letter sequence that is not aligned with the permutation dict"))
+                    return ("L", base[1])
+                return ("L", base[1])
+            return None
+        if isinstance(e, ast.DictComp) and len(e.generators) == 1:
+            g = e.generators[0]
+            it = ty(g.iter, loc)
+            l2 = dict(loc)
+            bind(g.target, it, l2)
+            k, v = ty(e.key, l2), ty(e.value, l2)
+            if k and k[0] == "L":
+                if v and v[0] == "L":
+                    return ("D", k[1], v[1])
+                if v and v[0] == "POS":
+                    return ("D", k[1], v)
+            return None
+        if isinstance(e, (ast.ListComp, ast.GeneratorExp)) and len(e.generators) == 1:
+            g = e.generators[0]
+            it = ty(g.iter, loc)
+            l2 = dict(loc)
+            bind(g.target, it, l2)
+            r = ty(e.elt, l2)
+            if r and r[0] == "L":
+                return ("L", r[1])
+            if r and r[0] == "POS":
+                return ("POS", r[1])
+            return None
+        return None
+
+    def bind(t, it, loc):
+        if it is None:
+            return
+        if isinstance(t, ast.Name):
+            if it[0] == "L":
+                loc[t.id] = ("L", it[1])
+            elif it[0] == "POS":
+                loc[t.id] = it
+        elif isinstance(t, ast.Tuple) and len(t.elts) == 2:
+            a, b = t.elts
+            if it[0] == "ITEMS":
+                if isinstance(a, ast.Name):
+                    loc[a.id] = ("L", it[1])
+                if isinstance(b, ast.Name):
+                    loc[b.id] = ("L", it[2]) if isinstance(it[2], str) else it[2]
+            elif it[0] == "ENUM":
+                if isinstance(a, ast.Name):
+                    loc[a.id] = ("POS", it[1][1]) if len(it[1]) > 2 else ("POS", "?")
+                if isinstance(b, ast.Name):
+                    loc[b.id] = ("L", it[1][1])
+            elif it[0] == "ZIP":
+                bind(a, it[1], loc)
+                bind(b, it[2], loc)
+    ret = [None]
+
+    def visit(stmts):
+        for s in stmts:
+            if isinstance(s, ast.Assign) and isinstance(s.targets[0], ast.Name):
+                t = ty(s.value)
+                if t:
+                    env[s.targets[0].id] = t
+                elif isinstance(s.value, ast.List) and not s.value.elts:
+                    env[s.targets[0].id] = ("EMPTY",)
+            elif isinstance(s, ast.For):
+                it = ty(s.iter)
+                bind(s.target, it, env)
+                visit(s.body)
+            elif isinstance(s, ast.If):
+                visit(s.body)
+                visit(s.orelse)
+            elif isinstance(s, ast.Expr) and isinstance(s.value, ast.Call) and isinstance(s.value.func, ast.Attribute) and s.value.func.attr == "append" \
+                    and isinstance(s.value.func.value, ast.Name) and s.value.args:
+                t = ty(s.value.args[0])
+                if t and t[0] == "L":
+                    env[s.value.func.value.id] = ("L", t[1])
+            elif isinstance(s, ast.Return) and s.value is not None:
+                ret[0] = ty(s.value)
+    visit(fn.body)
+    for node, msg in errors:
+        rep.violation(rid, f"get_wyckoff_letters_original: `{norm(node)[:60]}`", msg + ": the letters of the original atoms go through the inverse of the "
+                      "chosen normalizer permutation (differs from the permutation itself for 3- and 4-cycles)", M.where(fq, node))
+    if errors:
+        return
+    if ret[0] is None:
+        raise AnalysisError("get_wyckoff_letters_original: return value could not be typed in the letter-space discipline")
+    if ret[0][0] == "L" and ret[0][1] == "NEW":
+        rep.ok(rid, "get_wyckoff_letters_original returns NEW letters = permutation applied to spglib's (OLD) letters")
+    else:
+        rep.violation(rid, "get_wyckoff_letters_original: result", f"returns letters of the {ret[0][1] if len(ret[0]) > 1 else ret[0]} space; required the "
+                      "images of spglib's letters under the chosen permutation", M.where(fq))
